@@ -3,6 +3,9 @@ import LoraVerif.Spec.Adr
 import LoraVerif.Lemmas.ExceptLemmas
 import LoraVerif.Props.C08
 import LoraVerif.Props.C09
+import LoraVerif.Lemmas.GhostC
+import LoraVerif.Lemmas.RefineC
+import LoraVerif.Lemmas.HistoryCSafe
 /-!
 # C12 — uplink header bits and ADR back-off follow the session history
 
@@ -941,6 +944,227 @@ example : (run lcg (MacState.init (RegionState.init .EU868) 14 0, 1) demoHistory
 example : AdrRel .EU868 true (MacState.init (RegionState.init .EU868) 14 0) (none, auto0) := by
   obtain ⟨h1, h2, h3, _⟩ := C08.ansRel_init .EU868 14 0 (by decide)
   exact ⟨h1, h2, h3, rfl, rfl, fun _ => noBias_init _, fun s hs => by cases hs⟩
+/-! ## extended histories: the automaton also moves at acceptances INSIDE the receive procedure
+
+`Model/HistoryC.lean`: a Class C device hands the frames it hears on the RXC parameters between TX and
+RX1 and between RX1 and RX2 to `handle_rxc` in the middle of the procedure.  The reference procedure
+(`Lemmas/CycleC.lean`, `upRefC`) decides — from the event, the tracker's counter and the uplink's
+counter — on the list of ACTS of the procedure; the automaton moves along them (`ActsA`): a frame
+accepted on the RXC parameters restarts the count and makes an ACK owed if confirmed (`accept`), a
+frame accepted in a Class A window likewise (and may command a data rate: `AcceptedA`), every
+`rx2_complete` — both windows empty, an oversized frame, a radio fault — is a `timeout`. -/
+
+theorem bump_eq (fc : Nat) : bump fc = bumpFu fc := rfl
+
+/-- the automaton along the acts of a receive procedure; the second component is the uplink counter
+(at 2^32−1 `rx2_complete` reports `SessionExpired` and moves nothing) -/
+def ActsA (r : RegionId) : List Act → Auto × Nat → Auto → Prop
+  | [], x, a' => a' = x.1
+  | .accC _ d :: rest, x, a' => ActsA r rest (x.1.accept d.confirmed, bumpFu x.2) a'
+  | .accA _ d _ :: rest, x, a' => ∃ a1, AcceptedA x.1 d a1 ∧ ActsA r rest (a1, bumpFu x.2) a'
+  | .tmo :: rest, x, a' => ActsA r rest (tmo r x.2 x.1, bumpFu x.2) a'
+
+/-- **one extended event, seen from the uplink header**: events of `Model/History.lean` as `AdrStep`
+says (a join procedure: the plain `joinOtaa` it amounts to); `send` + receive procedure of a device
+with a session: the uplink carries the automaton's header bits and the requested message type, goes
+out at the automaton's data rate, and the automaton then moves along the acts the REFERENCE decides on
+for this procedure, Class C acceptances inside it included. -/
+def AdrStepC (r : RegionId) (nb : Bool) (g : DG) (e : EvL) (out : OutC) (g' : DG) : Prop :=
+  match e.2 with
+  | .base ev => AdrStep r nb g ev out.out g'
+  | .joinC cc fault c1 rx1 c2 rx2 => AdrStep r nb g (joinPlain fault rx1 rx2) out.out g'
+  | .uplinkC cc _ _ conf fault c1 rx1 c2 rx2 =>
+    g'.1 = ghNextC g.1 e out ∧
+    (match g.1 with
+     | some last =>
+       ∃ so resp dl, out.out = .up so resp dl ∧
+         (so.frame.ack, so.frame.adr, so.frame.adrAckReq) = g.2.header (lowerExists r) ∧ so.frame.confirmed = conf ∧
+         ((r.isFixed = false ∨ nb = true) → TxAt r g.2.dr so.tx) ∧
+         ActsA r (upRefC cc last conf e.1 fault c1 rx1 c2 rx2 so).acts (g.2.afterSend, so.frame.fcnt) g'.2
+     | none => out.out = .notJoined ∧ g'.2 = g.2)
+
+/-- **the automaton follows the model along the acts** -/
+theorem acts_adr (r : RegionId) (acts : List Act) :
+    ∀ (m m' : MacState) (s : Session), m.st = .joined s → m.region.id = r → Acts m acts m' →
+      ∃ s', m'.st = .joined s' ∧ m'.region.id = r ∧ ActsA r acts (abs s m.cfg, s.fcntUp) (abs s' m'.cfg) := by
+  induction acts with
+  | nil =>
+    intro m m' s hst hid h
+    simp only [Acts] at h
+    subst h
+    exact ⟨s, hst, hid, rfl⟩
+  | cons a rest ih =>
+    intro m m' s hst hid h
+    cases a with
+    | accC N d =>
+      simp only [Acts] at h
+      obtain ⟨s0, hs0, _, h⟩ := h
+      rw [hst] at hs0; cases hs0
+      obtain ⟨s1, hs1, habs⟩ := acceptStateC_abs m s d N
+      have hfu : s1.fcntUp = bumpFu s.fcntUp := by
+        have := acceptState_st m s d N { cfg := m.cfg, region := m.region, pending := s.pending }
+        rw [this, acceptFinish_session_eq] at hs1
+        cases hs1; rfl
+      have hid1 : (acceptState m s d N (ctxC m s)).region.id = r := by rw [(acceptState_cfg m s d N (ctxC m s)).2]; exact hid
+      obtain ⟨s', hst', hid', hA⟩ := ih _ m' s1 hs1 hid1 h
+      refine ⟨s', hst', hid', ?_⟩
+      simp only [ActsA]
+      rw [← habs, ← hfu]
+      exact hA
+    | accA N d snr =>
+      simp only [Acts] at h
+      obtain ⟨s0, ctx, hs0, _, hc, h⟩ := h
+      rw [hst] at hs0; cases hs0
+      obtain ⟨s1, hs1, hacc, hfu⟩ := acceptState_abs m s d N snr ctx hc
+      have hid1 : (acceptState m s d N ctx).region.id = r := by
+        rw [(acceptState_cfg m s d N ctx).2, C08.acceptCmds_region_id _ _ _ d snr ctx hc]; exact hid
+      obtain ⟨s', hst', hid', hA⟩ := ih _ m' s1 hs1 hid1 h
+      refine ⟨s', hst', hid', ?_⟩
+      simp only [ActsA]
+      refine ⟨_, hacc, ?_⟩
+      rw [← bump_eq, ← hfu]
+      exact hA
+    | tmo =>
+      simp only [Acts] at h
+      obtain ⟨s1, hs1, habs, hfu, hreg⟩ := timeoutState_abs m s hst
+      have hid1 : (timeoutState m).region.id = r := by rw [hreg]; exact hid
+      obtain ⟨s', hst', hid', hA⟩ := ih _ m' s1 hs1 hid1 h
+      refine ⟨s', hst', hid', ?_⟩
+      simp only [ActsA]
+      rw [hid] at habs
+      rw [← bump_eq, ← hfu, ← habs]
+      exact hA
+
+theorem acts_nobias (acts : List Act) : ∀ (m m' : MacState), NoBias m.region → Acts m acts m' → NoBias m'.region := by
+  induction acts with
+  | nil => intro m m' hn h; simp only [Acts] at h; subst h; exact hn
+  | cons a rest ih =>
+    intro m m' hn h
+    cases a with
+    | accC N d =>
+      simp only [Acts] at h
+      obtain ⟨s, _, _, h⟩ := h
+      exact ih _ m' (by rw [acceptState_region]; exact hn) h
+    | accA N d snr =>
+      simp only [Acts] at h
+      obtain ⟨s, ctx, _, _, hc, h⟩ := h
+      exact ih _ m' (by rw [acceptState_region]; exact acceptCmds_nobias _ _ _ d snr ctx hn hc) h
+    | tmo =>
+      simp only [Acts] at h
+      exact ih _ m' (by rw [timeoutState_region]; exact hn) h
+
+theorem stepC_adrRel {σ} (g : Rng σ) (r : RegionId) (m m' : MacState) (rs rs' : σ) (ev : EvC) (out : OutC) (dg : DG)
+    (nb : Bool) (hr : AdrRel r nb m dg) (hv : C08.evValidC r ev)
+    (h : stepC g (m, rs) ev = .ok ((m', rs'), out)) : ∃ dg', AdrStepC r nb dg (rxcMp m, ev) out dg' ∧ AdrRel r nb m' dg' := by
+  cases ev with
+  | base e =>
+    obtain ⟨hs, _⟩ := stepC_base g _ _ e out h
+    exact step_adrRel g r m m' rs rs' e out.out dg nb hr hv hs
+  | joinC cc fault c1 rx1 c2 rx2 =>
+    obtain ⟨hs, _⟩ := stepC_joinC_plain g _ _ cc fault c1 rx1 c2 rx2 out h
+    exact step_adrRel g r m m' rs rs' _ out.out dg nb hr ⟨evOk_joinPlain hv.1, C08.validEv_joinPlain hv.2⟩ hs
+  | uplinkC cc data fport conf fault c1 rx1 c2 rx2 =>
+    obtain ⟨gh, a⟩ := dg
+    obtain ⟨hgh, hwf, hid, hon, hdr, hnb, hses⟩ := hr
+    simp only at hgh hon hdr hnb hses
+    have hgh' := stepC_ghRel g m m' rs rs' _ out gh hgh hv.1 h
+    have hk : Keeps m m' := (stepC_safe g m rs _ hwf (by unfold ValidEvC; rw [hid]; exact hv.2)).elim h
+    have hid' : m'.region.id = r := by rw [hk.2.1, hid]
+    cases gh with
+    | none =>
+      obtain ⟨rfl, _, rfl⟩ := stepC_uplinkC_notJoined g m m' rs rs' hgh cc data fport conf fault c1 rx1 c2 rx2 out h
+      exact ⟨(none, a), ⟨rfl, rfl, rfl⟩, hgh, hwf, hid, hon, hdr, hnb, hses⟩
+    | some last =>
+      obtain ⟨s, hst, rfl, hl⟩ := hgh
+      have hval : (fport = 0 → data = []) ∧ data.length ≤ 222 := by
+        have := hv.2
+        simp only [validEvC, Bool.and_eq_true, Bool.or_eq_true, bne_iff_ne, ne_eq, List.isEmpty_iff, decide_eq_true_eq] at this
+        exact ⟨fun e => by rcases this.1.1.1.1.1 with h0 | h0; exact absurd e h0; exact h0, this.1.1.1.1.2⟩
+      obtain ⟨so, m1, hsend, hfr, hst1, hcfg1, hid1', hout, hacts, s', hst', hp', hl'⟩ :=
+        stepC_uplinkC_joined g m m' rs rs' s hst hl cc data fport conf fault c1 rx1 c2 rx2 hv.1 out h
+      have hid1 : m1.region.id = r := by rw [hid1', hid]
+      obtain ⟨ho, hc⟩ := hses s hst
+      have ha : a = abs s m.cfg := auto_eq_abs hon hdr ho hc
+      obtain ⟨hhead, hconf, hfc⟩ := header_descOf s m.cfg m.region.id data fport conf
+      rw [← hfr, hid, ← ha] at hhead
+      rw [← hfr] at hconf hfc
+      have hsent : abs (sentSession s conf) m1.cfg = a.afterSend := by rw [hcfg1, ha]; rfl
+      have hno : (r.isFixed = false ∨ nb = true) → NoBias m.region := by
+        intro hfx
+        rcases hfx with hfx | hfx
+        · obtain ⟨p, hp⟩ := (regionWF_isFixed hwf.region).2 (by rw [hid]; exact hfx)
+          exact noBias_dyn hp
+        · exact hnb hfx
+      have htx : (r.isFixed = false ∨ nb = true) → TxAt r a.dr so.tx := by
+        intro hfx
+        have := macSend_txAt_nobias g m m1 s hst hwf (hno hfx) data fport conf rs rs' so hsend
+        rw [hid, ← hdr] at this
+        exact this
+      have hnb' : nb = true → NoBias m'.region := by
+        intro e
+        obtain ⟨dr, tx, region', pw, r1, r2, _, _, hsel, hm1, _, _⟩ := macSend_joined g m s hst data fport conf rs rs' _ m1 hsend
+        have hn1 : NoBias m1.region := by rw [hm1]; exact (selectTxChannel_nobias g m.region region' dr .data rs rs' tx (hnb e) hsel).1
+        exact acts_nobias _ m1 m' hn1 hacts
+      obtain ⟨s2, hst2, _, hA⟩ := acts_adr r _ m1 m' _ hst1 hid1 hacts
+      rw [hsent] at hA
+      have hfu : (sentSession s conf).fcntUp = so.frame.fcnt := by rw [hfc]; rfl
+      rw [hfu] at hA
+      refine ⟨(ghNextC (some s.fcntDown) (rxcMp m, .uplinkC cc data fport conf fault c1 rx1 c2 rx2) out, abs s2 m'.cfg),
+        ⟨rfl, so, _, _, by rw [hout], hhead, hconf, htx, hA⟩, hgh', hk.1, hid', ?_, ?_, hnb', ?_⟩
+      · exact (absRel hst2).1
+      · exact (absRel hst2).2.1
+      · exact (absRel hst2).2.2
+
+/-- **C12 over every extended history** (Class C receptions inside the receive procedure included):
+along every `runC` of valid events from a well-formed state the reference automaton describes, every
+data uplink carries the automaton's header bits, and the automaton moves as `AdrStepC` says — an
+accepted downlink, wherever it is heard (RX1, RX2, on the RXC parameters between uplinks or INSIDE the
+receive procedure), restarts the count and, if confirmed, sets the ACK bit of the first uplink after
+it and of no other; every uplink that completes without one counts. -/
+theorem historyC_header_bits {σ} (g : Rng σ) (r : RegionId) (nb : Bool) (m : MacState) (rs : σ) (dg : DG) (hr : AdrRel r nb m dg)
+    (evs : List EvC) (hv : ∀ ev ∈ evs, C08.evValidC r ev) (ms' : MacState × σ) (outs : List OutC)
+    (h : runC g (m, rs) evs = .ok (ms', outs)) : TraceRG (AdrStepC r nb) dg ((annotC g (m, rs) evs).zip outs) := by
+  have hc := runC_chain g (m, rs) ms' evs outs h
+  refine chainC_traceR g (AdrStepC r nb) (AdrRel r nb) (C08.evValidC r)
+    (fun m s ev m' s' out gh hr hv hs => stepC_adrRel g r m m' s s' ev out gh nb hr hv hs)
+    (m, rs) ms' _ dg hr ?_ hc
+  intro x hx
+  have h1 := (List.of_mem_zip hx).1
+  unfold annotC at h1
+  exact hv _ (List.of_mem_zip h1).2
+
+/-- **C12 on the async front-end, for EVERY script, both classes** -/
+theorem asyncC_header_bits {σ} (g : Rng σ) (cfg : DevCfg) (r : RegionId) (nb : Bool) (d : DevRun) (rs : σ) (dg : DG)
+    (hr : AdrRel r nb d.m dg) (ops : List AsyncOp) (hv : ∀ op ∈ ops, op.allView viewOk = true ∧ op.valid r = true)
+    (obs : List OpObs) (d' : DevRun) (rs' : σ) (h : asyncOps g cfg d rs ops = .ok (obs, d', rs')) :
+    ∃ outs, TraceRG (AdrStepC r nb) dg ((annotC g (d.m, rs) (abstractSessionC cfg ops)).zip outs) ∧ AllRel ObsRel obs outs := by
+  obtain ⟨outs, hrun, hobs⟩ := asyncOps_runC g cfg d rs ops obs d' rs' h
+  refine ⟨outs, historyC_header_bits g r nb d.m rs dg hr _ ?_ _ outs hrun, hobs⟩
+  intro ev hev
+  obtain ⟨op, hop, rfl⟩ := List.mem_map.mp hev
+  exact ⟨abstractOp_evOkC cfg op (hv op hop).1, abstractOp_valid cfg r op (hv op hop).2⟩
+
+/-! non-vacuity, and the numbers of `C06.classC_inside_frontend`: ONE `send` of a Class C device that
+hears a confirmed downlink between TX and RX1 leaves ADR count 1 and an ACK owed; the uplink itself went
+out with counter 0 and without ACK; the next uplink carries the ACK -/
+def cdlC : RxView × Int :=
+  (.data { len := 14, confirmed := true, fcnt16 := 3, micFcnt := some 3, fopts := [], fport := some 2, payload := [3] }, 5)
+
+def demoHistoryC : List EvC :=
+  [ .base (.joinAbp 7 1 2),
+    .uplinkC true [1] 1 false none [cdlC] none [] none,
+    .uplinkC true [2] 1 false none [] none [] none ]
+
+example : ∀ ev ∈ demoHistoryC, evOkC ev = true ∧ validEvC .EU868 ev = true := by decide
+example : (runC lcg (MacState.init (RegionState.init .EU868) 14 0, 1) demoHistoryC).toOption.map
+      (fun r => (bits (r.2.map (·.out)), r.1.1.st)) =
+    some ([(false, true, false), (true, true, false)],
+      .joined { pending := [], ackOwed := false, confirmed := false, devAddr := 7, fcntUp := 3, fcntDown := some 3,
+                adrAckCnt := 2, nwkKey := 1, appKey := 2 }) := by decide +kernel
+example : ActsA .EU868 [.accC 3 { len := 14, confirmed := true, fcnt16 := 3, micFcnt := some 3, fopts := [], fport := some 2, payload := [3] }, .tmo]
+    (auto0.afterSend, 0) { ackOwed := true, adrOn := true, cnt := 1, dr := 0 } := by
+  simp only [ActsA]; decide
+
 end C12
 
 #print axioms C12.header_refines
@@ -957,3 +1181,7 @@ end C12
 #print axioms C12.selectTxChannel_nobias
 #print axioms C12.step_nobias
 #print axioms C12.macSend_txAt_nobias
+
+#print axioms C12.stepC_adrRel
+#print axioms C12.historyC_header_bits
+#print axioms C12.asyncC_header_bits
